@@ -82,7 +82,7 @@ struct World {
 
 // ---------------------------------------------------------------- faults
 enum Call { C_NONE = 0, C_READ, C_WRITE, C_CLOSE, C_UNLINK, C_FCHOWN, C_FCHMOD, C_FUTIMENS,
-            C_OPEN, C_LSTAT, C_FSTAT, C_STDERR, C_NCALLS };   // C_STDERR: an fprintf/vfprintf/fflush on stderr
+            C_OPEN, C_LSTAT, C_FSTAT, C_STDERR, C_MALLOC, C_NCALLS };   // C_MALLOC: a malloc() of at least 64 KiB (k counts only those)   // C_STDERR: an fprintf/vfprintf/fflush on stderr
 const char *call_name(int c);
 enum Role { R_ANY = 0, R_IN = 1, R_OUT = 2 };   // descriptor/path role
 
